@@ -8,7 +8,9 @@
 //   case <id> <clk0>          new case, virtual clock = clk0 (us)
 //   addr <tag> <n>            ignored here (model side only)
 //   T <d>                     clock += d (d < 0: rejected)
-//   A <tag> <when> <iv>       add on the loop thread (when = absolute deadline us, iv = interval us, 0 = one-shot)
+//   A <tag> <when> <iv>       add on the loop thread (when = absolute deadline us, iv = interval us, 0 = one-shot;
+//                             iv = "<n>ns": the interval is the double n/1e9 seconds -- not a whole number of
+//                             microseconds, or below one: what Timer::restart/addTime make of it is under test)
 //   C <tag>                   cancel on the loop thread (unknown tag: cancel(TimerId()))
 //   FA <tag> <when> <iv>      add from a foreign (helper) thread, joined before the op returns
 //   FC <tag>                  cancel from a foreign thread, joined
@@ -18,7 +20,7 @@
 //   FQ <tag>                  lets that helper go on: queueInLoop(addTimerInLoop) + wakeup, returns the id
 //                             (event badid(ret,own) if the returned id does not carry the timer's sequence)
 //   Q { cbop | cbop ... }     the loop thread queues a user functor (EventLoop::queueInLoop) that performs the
-//                             cbops (T/A/C/FA/FC) when doPendingFunctors runs it; a cancel inside names the id
+//                             cbops (T/A/C/FA/FC/FN/FQ) when doPendingFunctors runs it; a cancel inside names the id
 //                             the tag had when the functor was queued
 //   P                         EventLoop::doPendingFunctors()
 //   F [ cbop , cbop ; cbop ; ... ]   TimerQueue::handleRead(); i-th group = what the i-th callback
@@ -185,10 +187,26 @@ static void onHelper(const std::function<void()>& f)
 // largest magnitude for which the double -> int64 conversions below are defined
 static bool convertible(double x) { return x > -9.0e18 && x < 9.0e18; }
 
+// interval token: microseconds, or "<n>ns" = n/1e9 seconds as a double
+struct Iv { int64_t us; double sec; bool ns; };
+static Iv parseIv(const string& t)
+{
+  Iv r; r.us = 0; r.sec = 0.0; r.ns = false;
+  if (t.size() > 2 && t.compare(t.size() - 2, 2, "ns") == 0)
+  {
+    r.ns = true;
+    r.sec = strtod(t.substr(0, t.size() - 2).c_str(), NULL) / 1e9;
+  }
+  else r.us = num(t);
+  return r;
+}
+
 // The real API call of one add; runs on the calling thread.
-static TimerId callAdd(int64_t when, int64_t iv, int slot)
+static TimerId callAddIv(int64_t when, Iv ivx, int slot)
 {
   TimerCallback cb = std::bind(&onTimer, slot);
+  if (ivx.ns) return g_loop->timerQueue_->addTimer(cb, Timestamp(when), ivx.sec);
+  int64_t iv = ivx.us;
   int64_t now = g_clk;
   double d = static_cast<double>(iv) / 1e6;
   double after = static_cast<double>(when - now) / 1e6;
@@ -210,14 +228,14 @@ static TimerId callAdd(int64_t when, int64_t iv, int slot)
 }
 
 // A / FA, top level or nested. false = rejected by the guard.
-static bool doAdd(int tag, int64_t when, int64_t iv, bool foreign)
+static bool doAdd(int tag, int64_t when, Iv iv, bool foreign)
 {
   if (when <= 0) return false;
   int slot = static_cast<int>(g_slots.size());
   g_slots.push_back(TimerId());
   TimerId id;
-  if (foreign) onHelper([&id, when, iv, slot] { id = callAdd(when, iv, slot); });
-  else id = callAdd(when, iv, slot);
+  if (foreign) onHelper([&id, when, iv, slot] { id = callAddIv(when, iv, slot); });
+  else id = callAddIv(when, iv, slot);
   g_slots[slot] = id;
   g_ids[tag] = id;
   g_created[tag] = true;
@@ -229,7 +247,7 @@ static bool doAdd(int tag, int64_t when, int64_t iv, bool foreign)
 }
 
 // FN: the first micro-steps of a foreign add
-static bool doForeignNew(int tag, int64_t when, int64_t iv)
+static bool doForeignNew(int tag, int64_t when, Iv iv)
 {
   if (when <= 0) return false;
   int slot = static_cast<int>(g_slots.size());
@@ -241,7 +259,7 @@ static bool doForeignNew(int tag, int64_t when, int64_t iv)
   int64_t before = Timer::numCreated();
   p->th = std::thread([p, when, iv, slot] {
     t_park = p;
-    p->id = callAdd(when, iv, slot);
+    p->id = callAddIv(when, iv, slot);
   });
   while (sem_wait(&p->reached) != 0 && errno == EINTR) {}
   // the helper is parked inside queueInLoop: its Timer exists, nothing has been handed off
@@ -341,7 +359,7 @@ static bool doQueue(const CbOp& w)
       if (!cur.w.empty())
       {
         const string& k = cur.w[0];
-        if (k != "T" && k != "A" && k != "C" && k != "FA" && k != "FC")
+        if (k != "T" && k != "A" && k != "C" && k != "FA" && k != "FC" && k != "FN" && k != "FQ")
         { fprintf(stderr, "C06_driver: op '%s' not allowed in a Q body\n", k.c_str()); exit(2); }
         if ((k == "C" || k == "FC") && cur.w.size() >= 2) cur.id = idOfTag(atoi(cur.w[1].c_str()));
         ops.push_back(cur);
@@ -360,7 +378,7 @@ static bool doQueue(const CbOp& w)
 static bool execOp(const CbOp& w)
 {
   const string& k = w[0];
-  if (k == "FN" && w.size() >= 4) return doForeignNew(atoi(w[1].c_str()), num(w[2]), num(w[3]));
+  if (k == "FN" && w.size() >= 4) return doForeignNew(atoi(w[1].c_str()), num(w[2]), parseIv(w[3]));
   if (k == "FQ" && w.size() >= 2) return doForeignEnq(atoi(w[1].c_str()));
   if (k == "Q") return doQueue(w);
   if (k == "T" && w.size() >= 2)
@@ -371,7 +389,7 @@ static bool execOp(const CbOp& w)
     return true;
   }
   if ((k == "A" || k == "FA") && w.size() >= 4)
-    return doAdd(atoi(w[1].c_str()), num(w[2]), num(w[3]), k == "FA");
+    return doAdd(atoi(w[1].c_str()), num(w[2]), parseIv(w[3]), k == "FA");
   if ((k == "C" || k == "FC") && w.size() >= 2)
   {
     doCancel(atoi(w[1].c_str()), k == "FC");
